@@ -10,6 +10,7 @@ CONSTANTS
   Direct = TRUE
   MidCrash = TRUE
   Timeouts = TRUE
+  MaxWriteFaults = 0
 INVARIANT ContainerOK
 INVARIANT TopIsHeight
 INVARIANT StorageShape
